@@ -213,9 +213,11 @@ class Simplifier(pysmt.walkers.DagWalker):
             return self.manager.TRUE()
         elif sl.is_constant() and sr.is_constant() and \
              not sl.array_value_index_type().is_bv_type() and \
-             not sl.array_value_index_type().is_bool_type():
-            # Two distinct constant array values (they are kept in a
-            # canonical form) over an infinite index sort differ somewhere
+             not sl.array_value_index_type().is_bool_type() and \
+             not sl.array_value_default().get_type().is_array_type():
+            # Two distinct constant array values over an infinite
+            # index sort differ somewhere: their canonical form is
+            # unique when the elements are not arrays themselves
             return self.manager.FALSE()
         else:
             return self.manager.Equals(sl, sr)
